@@ -134,7 +134,7 @@ func c11World(rc *kernel.RunCtx) {
 
 	// the component: a generated root around chunk writers and ordinary nodes
 	nchunks := t.Range(0, rc.Param("max_chunks", 6), "nchunks")
-	sizes := []int{0, 1, 7, 100, 600, 4096, 5000, 20000}
+	sizes := []int{0, 1, 7, 100, 600, 4096, 5000, 20000, 70000}
 	var chunks [][]byte
 	for i := 0; i < nchunks; i++ {
 		n := sizes[t.Choose(len(sizes), "chunksize")]
